@@ -287,6 +287,10 @@ def cookieOf (p : Bytes × Nat) : Cookie :=
 
 def cookiesOf (v : Bytes) : List Cookie := (cookiePieces v).zipIdx.map cookieOf
 
+def cookiesOfField : Option Field → List Cookie
+  | some f => cookiesOf f.value
+  | none => []
+
 /-- p0f: `?name` for optional headers, `name` alone for identity-bearing ones, `name=[value]` otherwise -/
 def sigEntry (isReq : Bool) (h : Hdr) : SigHdr :=
   if ciMem h.name (optionalList isReq) then { optional := true, name := h.name, value := none }
@@ -315,9 +319,10 @@ def knownLang (i : LangItem) : Option Bytes :=
 /-- `name` is the preferred language of `ls`: it is the language of an element with a known primary
 tag whose quality no other known element exceeds and no earlier known element equals. -/
 def Preferred (ls : List LangItem) (name : Bytes) : Prop :=
-  ∃ (k : Nat) (i : LangItem), ls[k]? = some i ∧ knownLang i = some name ∧
-    ∀ (k' : Nat) (i' : LangItem), ls[k']? = some i' → (knownLang i').isSome →
-      itemQ i' ≤ itemQ i ∧ (k' < k → itemQ i' < itemQ i)
+  ∃ (pre : List LangItem) (i : LangItem) (post : List LangItem),
+    ls = pre ++ i :: post ∧ knownLang i = some name ∧
+    (∀ j ∈ pre, (knownLang j).isSome → itemQ j < itemQ i) ∧
+    (∀ j ∈ post, (knownLang j).isSome → itemQ j ≤ itemQ i)
 
 def NoPreferred (ls : List LangItem) : Prop := ∀ i ∈ ls, knownLang i = none
 
@@ -345,7 +350,7 @@ def reportReq (h : ReqHead) : ObsReq :=
     lang := langOf h,
     userAgent := ua,
     headers := hs,
-    cookies := match firstField h.fields "cookie" with | some f => cookiesOf f.value | none => [],
+    cookies := cookiesOfField (firstField h.fields "cookie"),
     referer := (firstField h.fields "referer").map (·.value),
     method := h.method,
     uri := h.target }
